@@ -119,6 +119,13 @@ impl<C: Suite> Model for M01<C> {
         v
     }
     fn actions(&self, s: &St) -> Vec<Act> {
+        // keys selected by a byte pattern of their public key: the public key (and nothing else) travels through every codec
+        if self.keys.names[s.k].starts_with("sk with ") && !self.tk.contains(&s.k) {
+            if s.m == self.tm[1] && s.pk_c == Codec::None && s.sig_c == Codec::None && s.sk_c == SkCodec::Plain(Codec::None) {
+                return [Codec::Bytes, Codec::Bare, Codec::Json, Codec::JsonReader, Codec::JsonValue].into_iter().map(Act::Pk).collect();
+            }
+            return vec![];
+        }
         if !self.tk.contains(&s.k) || !self.tm.contains(&s.m) {
             return vec![];
         }
